@@ -102,7 +102,13 @@ func main() {
 	if *prop == "all" {
 		props = props[:0]
 		for i := 1; i <= 18; i++ {
-			props = append(props, fmt.Sprintf("C%02d", i))
+			id := fmt.Sprintf("C%02d", i)
+			for _, rr := range res.Rules {
+				if hasProp(rr.Props, id) {
+					props = append(props, id)
+					break
+				}
+			}
 		}
 	}
 	exit := 0
